@@ -28,7 +28,7 @@ class PageData(_FrameStub):
     def __init__(self):
         Stub.__init__(self, columns=["a", "b"], shape=(1, 2))
 
-def reservation_vs_render(h1, h2, as_colheader, needs_header, fn, src, pf, ps, subline, first, last):
+def reservation_vs_render(h1, h2, as_colheader, needs_header, fn, src, pf, ps, subline, first, last, pageby_header=True):
     """returns (reserved, emitted repeated table rows) for the SAME document namespace"""
     import rtflite.encoding.renderer as rmod
     def mk(kind):
@@ -41,7 +41,7 @@ def reservation_vs_render(h1, h2, as_colheader, needs_header, fn, src, pf, ps, s
              rtf_footnote=None if fn == 0 else NS(text="f", as_table=(fn == 1)),
              rtf_source=None if src == 0 else NS(text="s", as_table=(src == 1)), df=None,
              rtf_body=NS(new_page=False, pageby_row="column", page_by=None, subline_by=["s"] if subline else None,
-                         as_colheader=as_colheader, col_rel_width=None))
+                         as_colheader=as_colheader, col_rel_width=None, pageby_header=pageby_header))
     reserved = RTFDocumentService.calculate_additional_rows_per_page(NS.of(RTFDocumentService), doc)
     r = token_renderer()
     r._render_body = lambda d, p: [("ROW", 0, 0)]
@@ -97,19 +97,21 @@ def build(tier, seed):
                 continue
             obs.append(Ob(
                 oid="O2.reserve.h%d%d" % (h1, h2),
-                sig="as_colheader: bool, needs_header: bool, fn: int, src: int, pf: int, ps: int, subline: bool, first: bool, last: bool",
+                sig="as_colheader: bool, needs_header: bool, fn: int, src: int, pf: int, ps: int, subline: bool, first: bool, last: bool, pbh: bool",
                 pre=["0 <= fn <= 2", "0 <= src <= 2", "0 <= pf <= 2", "0 <= ps <= 2",
+                     # the strategies show column headers on a page iff pageby_header or it is the first page
+                     "needs_header == (pbh or first)",
                      # a header without text and as_colheader=False is the C01 TypeError finding, not a budget matter
                      "as_colheader or %s" % ("True" if 2 not in (h1, h2) else "False")],
                 header=HDR_RES, timeout=T,
-                body="    reserved, emitted = reservation_vs_render(%d, %d, as_colheader, needs_header, fn, src, pf, ps, subline, first, last)\n"
+                body="    reserved, emitted = reservation_vs_render(%d, %d, as_colheader, needs_header, fn, src, pf, ps, subline, first, last, pbh)\n"
                      "    return reserved >= emitted\n" % (h1, h2),
                 funcs=["rtflite.services.document_service:RTFDocumentService.calculate_additional_rows_per_page",
                        "rtflite.encoding.renderer:PageRenderer.render", "rtflite.encoding.renderer:PageRenderer._render_column_headers"],
                 stubs=["encoding/figure/document services -> role-token services", "_render_body -> one row token",
                        "RTFColumnHeader -> deep-copyable object with text/border_top", "polars frame of the auto-header branch -> stub"],
                 bounds="header rows (%s, %s) of kinds absent/explicit/auto; footnote, source in absent|table|paragraph; placements, "
-                       "subline_by, first/last page, needs_header, as_colheader symbolic" % (h1, h2),
+                       "subline_by, first/last page, pageby_header (headers shown iff pageby_header or first page), as_colheader symbolic" % (h1, h2),
                 what="rows reserved by calculate_additional_rows_per_page >= repeated table rows (column header rows, table "
                      "footnote/source rows, subline heading) that render() emits on the page, same document"))
     # O3: group headings incl. continuation headings stay within the budget
